@@ -14,7 +14,7 @@ replay = c01.replay
 
 
 def head_rule(rng, atoms, depth):
-    f = gen.formula(rng, atoms, depth, gen.HEAD_UN, gen.HEAD_BIN, None, gen.KEYWORDS, nfold=0.3, leaf=0.2)
+    f = gen.formula(rng, atoms, depth, gen.HEAD_UN, gen.HEAD_BIN, None, gen.KEYWORDS, nfold=0.45 if len(atoms) == 1 else 0.3, leaf=0.2)
     part = rng.choice(['initial', 'initial', 'always', 'dynamic', 'final'])
     nb = rng.choice([0, 0, 1, 1, 2])
     body = [gen.core_body_lit(rng, atoms) for _ in range(nb)]
@@ -33,6 +33,8 @@ def programs(ctx):
     for i in range(n):
         atoms = ['a', 'b'] if rng.random() < 0.75 else ['a', 'b', 'c']
         fatoms = atoms if rng.random() < 0.75 else ['-a' if x == 'a' else x for x in atoms]      # classically negated atoms in head formulas
+        if rng.random() < 0.2:
+            fatoms = ['a']          # one atom at several distances (ranges of the domain rule)
         rules = []
         for _ in range(rng.choice([1, 1, 2, 3])):
             r = head_rule(rng, fatoms, rng.randint(1, depth))
@@ -52,6 +54,21 @@ def programs(ctx):
             rules.append(r)
         if fatoms is not atoms and rng.random() < 0.5:
             rules.append({'part': 'always', 'head': ('choice', ['a']), 'body': []})
+        fam = rng.random()
+        if fam < 0.1:
+            # one atom at several (adjacent and separated) distances, in random textual order: ranges / interval sets of the domain rule
+            ds = rng.sample([0, 1, 2, 3, 4], rng.randint(3, 4))
+            terms = [('atom', 'a') if d == 0 else ('next' if rng.random() < 0.7 else 'wnext', d if d > 1 or rng.random() < 0.5 else None, ('atom', 'a')) for d in ds]
+            f = terms[0]
+            for t in terms[1:]:
+                f = (rng.choice(['or', 'or', 'and']), f, t)
+            rules = [{'part': rng.choice(['initial', 'always', 'dynamic']), 'head': ('tel', f), 'body': []}]
+        elif fam < 0.2:
+            # a counted next in a rule that fires at consecutive states: several instances of one formula pending at once
+            f = (rng.choice(['or', 'and', 'or']), ('atom', 'b'), (rng.choice(['next', 'wnext']), rng.choice([2, 2, 3]), ('atom', 'a')))
+            if rng.random() < 0.5:
+                f = (f[0], f[2], f[1])
+            rules = [{'part': rng.choice(['always', 'dynamic']), 'head': ('tel', f), 'body': rng.choice([[], [('n', ('patom', 'b', 1))]])}]
         k = rng.random()
         if k < 0.35:
             rules += gen.core_program(rng, atoms, (1, 2))
@@ -69,10 +86,10 @@ def programs(ctx):
 
 
 def run(ctx):
-    H = 2 if ctx.quick else 3
+    H = 4
     maxbits = 12
     progs = programs(ctx)
-    recs = s4.compare(ctx, [p for _, p in progs], H, maxbits)
+    recs = s4.compare(ctx, [p for _, p in progs], H, maxbits, timeout=12)
     res = c01.summarize(ctx, progs, recs, H, maxbits, 'C04')
     ops = {}
     for _, p in progs:
